@@ -580,6 +580,15 @@ func (cw *c07World) exec(in c07Input, plan map[int]string, wantPrefix []string) 
 	} else if !dPayee.IsZero() || !dH.IsZero() {
 		return obs, tagged(viol("failed-hook-leaves-no-effects", "%s: hook did not succeed but payee +%s / signer -%s", label, dPayee, dH), "payload", in.Payload)
 	}
+	if !obs.hookOK {
+		// ... and no trace in the transaction's events either: relayers act on events, and what a rolled-back
+		// message announced never happened
+		for _, e := range world.EventsOfType(res.Events, "transfer") {
+			if r, _ := world.Attr(e, "recipient"); r == world.Addr("payee").String() {
+				return obs, tagged(viol("failed-hook-leaves-no-effects", "%s: hook did not succeed but the transaction carries a transfer event of one of its messages (to the payee)", label), "payload", in.Payload, "what", "events")
+			}
+		}
+	}
 	if after.hseq < before.hseq || after.hseq > before.hseq+1 {
 		return obs, viol("failed-hook-leaves-no-effects", "%s: hook signer sequence %d -> %d", label, before.hseq, after.hseq)
 	}
